@@ -100,3 +100,47 @@ Example C01_hypotheses_satisfiable :
   /\ arrow_ok_b ragged_witness = true /\ forallb rect_b (chunks ragged_witness) = false
   /\ m_init ragged_witness true = Err.
 Proof. repeat split; reflexivity. Qed.
+
+(* packing of list columns (packer.pack_lists: from_lists, nest_lists, and the dotted outputs of a reduce function):
+   with validation a ragged row is refused whatever the chunking of the columns; WITHOUT it (validate=False, what a
+   seeded change of the eighth round made of reduce's packing step) the ragged row is stored *)
+From NP Require Import Bridge Proofs_Bridge.
+Theorem C01_pack_lists_ragged_refused : forall cols n, cols <> [] ->
+  forallb (lcolumn_ok n) cols = true ->
+  (exists c, In c cols /\ map (fun o => length (olist o)) (column_rows c)
+                           <> map (fun o => length (olist o)) (column_rows (hd (EmptyString, TI64, []) cols))) ->
+  m_pack_lists cols true = Err.
+Proof. exact pack_lists_ragged_refused. Qed.
+Print Assumptions C01_pack_lists_ragged_refused.
+
+Definition ragged_outputs : list lcolumn :=
+  [ ("t"%string, TF64, [la_of_lists [Some [VTok 1; VTok 2; VTok 3]; Some [VTok 4]]]);
+    ("w"%string, TF64, [la_of_lists [Some [VTok 1; VTok 2; VTok 3]; Some []]]) ].
+Theorem C01_unvalidated_packing_refuted : exists p,
+  forallb (lcolumn_ok 2) ragged_outputs = true /\
+  m_pack_lists ragged_outputs true = Err /\
+  m_pack_lists ragged_outputs false = Ok p /\ forallb rect_b (chunks p) = false.
+Proof. eexists. repeat split; vm_compute; reflexivity. Qed.
+Print Assumptions C01_unvalidated_packing_refuted.
+
+(* a cast between nested dtypes is an entry point too (Cast.v): Arrow fills a field the column lacks with a NULL list in
+   every row, so widening is refused as soon as a kept field holds an element; the column's own dtype changes nothing; a
+   selection / re-ordering of the fields is the field selection *)
+From NP Require Import Cast Proofs_Cast.
+Theorem C01_astype_widening_refused : forall p target c k fk nm,
+  In c (chunks p) ->
+  In k (map fst target) -> find (fun f => String.eqb (fname f) k) (sfields c) = Some fk ->
+  last (offs (farr fk)) 0 <> hd 0 (offs (farr fk)) ->
+  hd 0 (offs (farr fk)) <= last (offs (farr fk)) 0 ->
+  In nm (map fst target) -> find (fun f => String.eqb (fname f) nm) (sfields c) = None ->
+  m_astype_nested p target = Err.
+Proof. exact astype_widening_refused. Qed.
+Print Assumptions C01_astype_widening_refused.
+Theorem C01_astype_same_dtype : forall p, inv_b p = true -> m_astype_nested p (ctype p) = Ok p.
+Proof. exact astype_same_dtype. Qed.
+Print Assumptions C01_astype_same_dtype.
+Theorem C01_astype_select_fields : forall p target, inv_b p = true -> target <> [] -> NoDup (map fst target) ->
+  (forall nt, In nt target -> In nt (ctype p)) ->
+  exists q, m_astype_nested p target = Ok q /\ abs q = spec_select_fields (abs p) (map fst target).
+Proof. exact astype_select_fields. Qed.
+Print Assumptions C01_astype_select_fields.
